@@ -1773,6 +1773,12 @@ func (t *tScreen) parseRune(buf *bytes.Buffer, evs *[]Event) (bool, bool) {
 					t.escaped = false
 				}
 				*evs = append(*evs, NewEventKey(KeyRune, r, mod))
+			} else if t.escaped {
+				// bytes that are no character are dropped: there is no key
+				// for a held-back ESC to modify, so it is delivered as Esc
+				// instead of leaking as Alt onto whatever is typed next
+				t.escaped = false
+				*evs = append(*evs, NewEventKey(KeyEsc, 0, ModNone))
 			}
 			for nIn > 0 {
 				_, _ = buf.ReadByte()
